@@ -47,12 +47,19 @@ def make(case):
         amp = {'exp': [0], 'cosh': [0], 'rat': [0, 2], 'exp2': [0, 2]}[case['model']]
         truth = [t * s_ if i in amp else t for i, t in enumerate(truth)]
         yv = nf(np.array(truth), x)
+    ysc = 1.0
+    if case.get('yscale2') and case.get('kind') == 'ls' and k_int is None:
+        # data of small / large overall size (correlators in lattice units, quantities in MeV): amplitudes rescaled
+        ysc = 10.0 ** case['yscale2']
+        amp = {'exp': [0], 'cosh': [0], 'rat': [0, 2], 'exp2': [0, 2]}[case['model']]
+        truth = [t * ysc if i in amp else t for i, t in enumerate(truth)]
+        yv = nf(np.array(truth), x)
     n = 60
     common = nprng.normal(size=n)
     ys = []
     for p in range(npts):
         ens = 'E%d' % (p % case['nens'])
-        sig = 0.01 * abs(yv[p]) * (1 + 0.3 * (p % 3)) + 1e-3
+        sig = 0.01 * abs(yv[p]) * (1 + 0.3 * (p % 3)) + 1e-3 * ysc
         smp = yv[p] + sig * (case['corr'] * common + nprng.normal(size=n)) / np.sqrt(1 + case['corr'] ** 2)
         ys.append(pe.Obs([smp], [ens + '|r1']))
     if k_int is not None:
@@ -431,6 +438,9 @@ def gen_case(ctx):
         case['model'] = 'exp'
     case['xint'] = kind == 'tls' and rng.random() < 0.3
     case['yint'] = kind == 'ls' and not case['correlated'] and rng.random() < 0.25
+    # (not together with num_grad: the step sizes of numdifftools are absolute, its Hessian is taken on contract at scale 1)
+    if kind == 'ls' and not case['yint'] and not case['num_grad'] and rng.random() < 0.35:
+        case['yscale2'] = rng.choice([-10, -12, 7])
     if kind == 'tls' and rng.random() < 0.35:
         case['xdim'] = 2
     if case['correlated'] and rng.random() < 0.6:
